@@ -144,6 +144,11 @@ glasso = sym('glasso', (T, R), T, None)
 
 indexer_of = sym('indexer_of', (_Ref,), _Ref, None)       # the ArrayIndexer callable built from an array-like preprocessor
 
+vmax = sym('vmax', (T,), R, lambda v: float(v.max()))
+cfm = sym('cfm', (T,), T, None)                         # components_from_metric(M)
+
+ndistinct = sym('ndistinct', (T,), I, lambda v: int(len(_np.unique(v))))
+
 # ---- spec functions (contract vocabulary)
 mdist = sym('mdist', (T, T, T), R,                         # d_L(x, y) = || L (x - y) ||_2
             lambda L, x, y: float(_np.sqrt(((L @ (x - y)) ** 2).sum())))
@@ -257,6 +262,8 @@ ax('sqrt_zero', 'math', [], sqrt(z3.RealVal(0)) == 0, [], ['sqrt'], lean='Real.s
 ax('gram_symm', 'math', [L], tr(gram(L)) == gram(L), [z3.MultiPattern(tr(gram(L)))], ['tr', 'gram'], lean='gram_transpose', gen=dict(L='mat(k,d)'))
 ax('mv_sub', 'math', [L, x, y], sub(mv(L, x), mv(L, y)) == mv(L, sub(x, y)), [z3.MultiPattern(sub(mv(L, x), mv(L, y)))], ['sub', 'mv'],
    lean='mulVec_sub', gen=dict(L='mat(k,d)', x='vec(d)', y='vec(d)'))
+ax('vmax_abs_nonneg', 'math', [a], vmax(absT(a)) >= 0, [z3.MultiPattern(vmax(absT(a)))], ['vmax', 'absT'], lean='max_abs_nonneg', gen=dict(a='vec(n)'))
+ax('eps_pos', 'math', [], EPS > 0, [], [], lean='machine epsilon is positive (definition)')
 # ---- math: real sqrt
 ax('sqrt_nonneg', 'math', [s], sqrt(s) >= 0, [z3.MultiPattern(sqrt(s))], ['sqrt'], lean='Real.sqrt_nonneg', gen=dict(s='real'))
 ax('sqrt_sq', 'math', [s], z3.Implies(s >= 0, sqrt(s) * sqrt(s) == s), [z3.MultiPattern(sqrt(s))], ['sqrt'],
